@@ -568,7 +568,7 @@ func (fc *FnCtx) evalCallWith(st *State, call *ast.CallExpr, preRecv *Val, preAr
 	if vs, ok := fc.atomicCall(st, call, f); ok {
 		return vs
 	}
-	if fc.isQuiet(f) && fc.eng.contractFor(f, fc.pkg) == nil {
+	if fc.isQuiet(f) && fc.lookupContract(f) == nil {
 		fc.checkCallPre(st, call, f, nil, nil)
 		if f.Name() == "Wait" && fc.root().spawned {
 			// join point: whatever the goroutines spawned by this function did to the heap is visible from here on
